@@ -134,7 +134,7 @@ open Pc.P2L
 theorem realIter_specTo_two63 (e : Env) (he : GenSpec e) (hp hn : ℕ → ℕ) (hhn : ∀ n, hn n ≤ umax) :
     IterSpecTo (realIter e hp hn) Pc.LB.two63 :=
   realIter_specTo e he hp hn hhn Pc.LB.two63 (by unfold Pc.LB.two63 umax; omega)
-    (by obtain ⟨p, h1, h2, h3⟩ := exists_prime_two63; exact ⟨p, h1, by unfold Pc.LB.two63; omega, h3⟩)
+    (by obtain ⟨p, h1, h2, h3⟩ := exists_prime_ge_two63; exact ⟨p, h1, by unfold Pc.LB.two63; omega, h3⟩)
 
 /-- **the P2 abstraction is sound for the stateful object.** `realIter` answers a query at position `n` with a FRESH object; the
     real loops use ONE running object. Forward: whenever the running object `s` is ready at `n` (`FwdReady s n`: what
@@ -169,7 +169,7 @@ theorem running_meets_spec (e : Env) (he : GenSpec e) (hp hn : ℕ → ℕ) (hhn
       List.getLast?_eq_some_getLast h1
     exact ⟨h1, (h2 _ hL).1, fun L hL' => (h2 L hL').2⟩
   · rw [realIter_prev e he hp hn (p - 1) (by omega)]
-    obtain ⟨s', h1, h2⟩ := prevPrime_step e he s p h
+    obtain ⟨s', h1, h2⟩ := prevPrime_stepAt e he s p h
     have := Nat.findGreatest_le (P := Nat.Prime) (p - 1)
     exact ⟨s', h1, h2, by omega⟩
 
